@@ -107,4 +107,22 @@ around int64 from about 9.2 s on, going negative for e.g. 10 s). Inside the prop
 def inInt64 (d : Int) : Prop := -9223372036854775808 ≤ d ∧ d < 9223372036854775808   -- [-2^63, 2^63)
 def F_timeout (c : RestConf) : Bool := c.timeout != 0
 
+/-! ## clients keep their configuration: stated over values, no memory
+
+"NewRest[T] returns the implementation registered for T, built from a RestConf holding exactly the supplied options":
+the RestConf a client was built from holds exactly ITS options (and what its owner applied to it since), whatever other
+clients were created and configured in between. -/
+
+def specClients : List (CtorId × RestConf) → List KOp → List KOut
+  | _, [] => []
+  | cs, .new t opts :: r => .made t (specConf opts) :: specClients (cs ++ [(t, specConf opts)]) r
+  | cs, .withOpt j o :: r =>
+    match cs[j]? with
+    | none => .noSuch :: specClients cs r
+    | some (t, c) => .done :: specClients (cs.set j (t, o.apply c)) r
+  | cs, .again j :: r =>
+    match cs[j]? with
+    | none => .noSuch :: specClients cs r
+    | some (_, c) => .seen c :: specClients cs r
+
 end ShootVerif.Runtime
